@@ -100,13 +100,15 @@ theorem C17_unmap_both_views (calls : List MmapCall) (u : MunmapLen) (h : unmapC
 
 /-- Source conformance: the calls are placed as the page-table model assumes (first call: kernel-chosen base,
 which is what `new` returns; every later call `MAP_FIXED` at a named block), `new` refuses a length that is not
-a whole number of pages, and `HeapStorage::new` records the source length and frees the source box as
+a whole number of pages, `default`/`new_zeroed` size the buffer with `get_page_size_mul(capacity)` under `vmem`
+(`get_range_max`), and `HeapStorage::new` records the source length and frees the source box as
 `MaybeUninit` cells, i.e. without destroying the items that were copied into the mapping. -/
 theorem C17_source_shape :
     wellPlaced Gen.vmemMmapCalls = true ∧ Gen.vmemReturnsFirstMapping = true ∧ Gen.vmemAssertsPageMultiple = true ∧
     extent Gen.vmemMmapCalls = 2 ∧
+    Gen.pinRangeMax = "{#[cfg(feature='vmem')]returnsuper::vmem_helper::get_page_size_mul(capacity);#[cfg(not(feature='vmem'))]returncapacity;}" ∧
     Gen.vmemStorageNew = "{letr=vmem_helper::new(&value);letlen=value.len();drop(unsafe{core::mem::transmute::<Box<[UnsafeSyncCell<T>]>,Box<[core::mem::MaybeUninit<UnsafeSyncCell<T>>]>>(value)});Self{inner:r,len,}}" := by
-  refine ⟨by decide, rfl, rfl, by decide, rfl⟩
+  refine ⟨by decide, rfl, rfl, by decide, rfl, rfl⟩
 
 /-- Non-vacuity: a design for which all decision procedures answer `true` exists (one shared object mapped twice). -/
 def refCalls : List MmapCall :=
